@@ -27,4 +27,4 @@ Extraction "extract/model.ml"
   Lex.tokenize Parse.compile Parse.fn_sig Serialize.query_text Cache.finditer_c Cache.cache_positions Cache.cacheable Cache.any_cacheable Cache.volatile
   TokPrint.query_toks TokPrint.norm_query Parse.compile_tokens
   Gate.gate_query TokensOk.tokens_ok NormDomain.c10_domain NormDomain.floats_stable Reparsable.floats_ok Cli.cli_run Cli.attrs_defined CliSpec.demanded CliSpec.rejections
-  Project.select Project.select_one ProjectSpec.project_tree ProjectSpec.selections_ok ProjectSpec.keys_only ProjectSpec.project_flat ProjectSpec.project_root.
+  Project.select Project.select_one ProjectSpec.project_tree ProjectSpec.selections_ok ProjectSpec.selections_deep_ok ProjectSpec.keys_only ProjectSpec.project_flat ProjectSpec.project_root.
